@@ -71,14 +71,32 @@ def o_pairwise_matrix(ctx):
 
 
 def o_squared(ctx):
-    """squared_property: x_squared == x**2 after assignments to either form"""
+    """squared_property: x_squared == x**2 after any sequence of assignments to either form and
+    reads of either form in between (a read must not freeze a value)"""
     from propka.parameters import Parameters
-    p = Parameters()
+    import gc
     names = ['desolv_cutoff', 'buried_cutoff', 'coulomb_cutoff1', 'coulomb_cutoff2']
     n = ctx.choice('field', names)
-    seq = ctx.choice('sequence', [('plain',), ('squared',), ('plain', 'squared'), ('squared', 'plain'), ('squared', 'squared')])
-    for i, how in enumerate(seq):
-        v = ctx.real('v%d' % i, 0, 100)
+    # optionally an earlier Parameters object that was used and discarded (its memory is typically
+    # re-used by the next object of the same type): nothing of it may leak into the new one
+    if ctx.choice('earlier_object', [False, True]):
+        old = Parameters()
+        setattr(old, n, ctx.real('earlier_value', 0, 100))
+        getattr(old, n + '_squared')
+        del old
+        gc.collect()
+    p = Parameters()
+    seq = ctx.choice('sequence', [('plain',), ('squared',), ('plain', 'squared'), ('squared', 'plain'), ('squared', 'squared'),
+                                  ('read', 'plain'), ('plain', 'read', 'plain'), ('squared', 'read', 'plain'), ('plain', 'read', 'squared', 'read', 'plain')])
+    last = None
+    k = 0
+    for how in seq:
+        if how == 'read':
+            x, xs = getattr(p, n), getattr(p, n + '_squared')
+            ctx.claim('consistent-at-every-read', eq(xs, x * x))
+            continue
+        v = ctx.real('v%d' % k, 0, 100)
+        k += 1
         if how == 'plain':
             setattr(p, n, v)
             last = ('plain', v)
@@ -95,6 +113,9 @@ def o_squared(ctx):
     for other in names:
         if other != n:
             ctx.claim('others-untouched', getattr(p, other) == getattr(Parameters(), other))
+    # a second Parameters object is independent of the first
+    q = Parameters()
+    ctx.claim('fresh-object-has-defaults', getattr(q, n + '_squared') == getattr(q, n) ** 2 and getattr(q, n) == getattr(Parameters(), n))
 
 
 def o_parse_line(ctx):
@@ -218,7 +239,7 @@ def obligations(tier):
                    bounds='2 entries over key pairs of {A,B,C} in either key order, symbolic cut-offs, default line before/between/after/absent',
                    claim_doc='symmetric; unspecified pairs give the declared default', max_paths=20000),
         Obligation('O3-squared-property', o_squared, code=[P + 'squared_property.__get__', P + 'squared_property.__set__'],
-                   bounds='4 fields, 5 assignment sequences of length <= 2, values in [0,100]',
+                   bounds='4 fields, 9 sequences of assignments and reads (length <= 5), values in [0,100]',
                    claim_doc='x_squared == x^2 after any sequence of assignments to either form'),
         Obligation('O4-parse-line-dispatch', o_parse_line, code=[P + 'Parameters.parse_line', P + 'Parameters.parse_*'],
                    bounds='15 concrete lines (one per declared field kind), 3 orders', kind='table-check'),
